@@ -105,3 +105,37 @@ def _truth(b):
     if z3.is_false(t):
         return False
     raise ValueError("structural flag must be concrete in a case")
+
+
+def _int_of(e):
+    e = z3.simplify(e)
+    if z3.is_int_value(e):
+        return e.as_long()
+    raise ValueError(f"not a numeral: {e}")
+
+
+def past_point(task):
+    """the (auxiliary) instant at which the library parks a task that is not scheduled: read from the
+    task's own `If(scheduled, rules, start == c /\ end == c)` assertion; from the user's point of view the
+    placement of an unscheduled task is existential, this is only the witness"""
+    sch = task._scheduled
+    for f in task.get_z3_assertions():
+        if z3.is_app(f) and f.decl().kind() == z3.Z3_OP_ITE and f.arg(0).eq(T(sch)):
+            parked = f.arg(2)
+            for eq in parked.children():
+                if z3.is_eq(eq) and eq.arg(0).eq(task._start):
+                    return _int_of(eq.arg(1))
+    raise ValueError(f"no parking point found for task {task.name}")
+
+
+def unselected_point(task, worker):
+    """the (auxiliary) instant at which the busy interval of a listed worker that is not selected is parked:
+    read from the task's own `If(selected, sync, busy_start == c /\ busy_end == c)` assertion"""
+    bs, be = worker._busy_intervals[task]
+    for f in task.get_z3_assertions():
+        if z3.is_app(f) and f.decl().kind() == z3.Z3_OP_ITE:
+            parked = f.arg(2)
+            for eq in parked.children():
+                if z3.is_eq(eq) and eq.arg(0).eq(bs):
+                    return _int_of(eq.arg(1))
+    raise ValueError(f"no parking point found for worker {worker.name} / task {task.name}")
